@@ -21,7 +21,10 @@ Inductive xcase :=
 (* UnifiedFullViewingKey::decode + encode / UnifiedIncomingViewingKey::decode + encode in the
    profile without `transparent-inputs` *)
 | XFvkNt (t : otab) (net : N) (i : dinput) (o : outcome (ufvk * (bytes * bytes)) derr)
-| XIvkNt (t : otab) (net : N) (i : dinput) (o : outcome (uivk * (bytes * bytes)) derr).
+| XIvkNt (t : otab) (net : N) (i : dinput) (o : outcome (uivk * (bytes * bytes)) derr)
+(* the same profile: to_unified_incoming_viewing_key().encode() of a decoded UFVK — the item
+   list of the derived UIVK *)
+| XNarrowNt (t : otab) (k : ufvk) (o : outcome (list item) unit).
 
 Definition ua_model (t : otab) (items : list item) : outcome (uaddr * list item) unit :=
   match ua_try_from (doa_of t) (dsa_of t) items with
@@ -29,6 +32,18 @@ Definition ua_model (t : otab) (items : list item) : outcome (uaddr * list item)
   | Err e => Err e
   | Panic => Panic
   end.
+
+Definition narrow_model (t : otab) (k : ufvk) : outcome (list item) unit :=
+  match ufvk_to_uivk (orc_of t) k with
+  | Ok i => to_container (uivk_items i)
+  | _ => Panic
+  end.
+
+(** the items a narrowed key may have: the external IVKs of the FVK items the build interpreted —
+    nothing of what it merely kept (unknown items, the uninterpreted P2PKH item) *)
+Definition narrow_spec (t : otab) (k : ufvk) : list item :=
+  oapp (option_map (fun b => (2, look_bytes t 5 b 0)) (fvk_s k))
+  ++ oapp (option_map (fun b => (3, look_bytes t 4 b 0)) (fvk_o k)).
 
 Definition xrun (c : xcase) : bool :=
   match c with
@@ -39,6 +54,7 @@ Definition xrun (c : xcase) : bool :=
   | XIvkNt t net i o =>
       outcome_eqb (pair_eqb uivk_eqb enc_eqb) derr_eqb
         (with_reenc (uivk_encode net) (uivk_decode_nt (orc_of t) net i)) o
+  | XNarrowNt t k o => outcome_eqb items_eqb unit_eqb (narrow_model t k) o
   end.
 
 (** some shielded receiver of the list is rejected by its primitive decoder *)
@@ -73,6 +89,12 @@ Definition xprop (c : xcase) : bool :=
       | _, Ok _ => false
       | _, Err _ => true
       end
+  | XNarrowNt t k o =>
+      match o with
+      | Ok l => items_eqb l (narrow_spec t k)
+      | Err _ => false
+      | Panic => negb (is_some (fvk_s k) || is_some (fvk_o k))   (* nothing to encode *)
+      end
   end.
 
 Definition xtag (c : xcase) : N :=
@@ -94,4 +116,7 @@ Definition xtag (c : xcase) : N :=
              | Ok (k, _) => match ivk_unknown k with (0, _) :: _ => 1 | _ => 0 end
              | Err (EParse _) => 2 | Err ENetwork => 3 | Err (EKey _) => 4 | Panic => 5
              end
+  | XNarrowNt _ k o =>
+      6300 + (match fvk_unknown k with [] => 0 | (0, _) :: _ => 1 | _ => 2 end)
+      + 3 * match o with Ok _ => 0 | Err _ => 1 | Panic => 2 end
   end.
